@@ -114,6 +114,7 @@ def is_wild(op_line):
     return S.Op.parse(op_line).flt('Lmax', 1e20) < 1e19
 
 
+@C.tolerant
 def sweep_ops(rng, exe, n_problems, wild=False):
     """Exhaustive stop injection: for fixed runs, `stop()` during every event index (problem
     evaluation, direction call or progress callback)."""
